@@ -99,7 +99,7 @@ def shrink(case, fails):
     return {"cfg": case["cfg"], "ops": ops}
 
 
-CONC_PROPS = {"C01", "C02", "C03", "C04", "C05", "C06", "C07", "C12", "C14", "C18"}      # properties whose check includes the interleaved stage (lib/conclib.py)
+CONC_PROPS = {"C01", "C02", "C03", "C04", "C05", "C06", "C07", "C12", "C14", "C17", "C18"}      # properties whose check includes the interleaved stage (lib/conclib.py)
 
 
 def run(prop, theorems, tier, replay=None, extra_gen=None, known_classifier=None, rule_note="", link=(), extra_stage=None):
@@ -287,9 +287,13 @@ def run(prop, theorems, tier, replay=None, extra_gen=None, known_classifier=None
             broken.append("Conf/ConcConf.vo does not compile: " + (mkc or "")[-800:])
         if not ccases:
             return
-        obs = observe(ccases, tag + "i")
-        if obs is None:
-            return
+        obs, spinning, blocked = cl.run_conc(ccases, tag + "i")
+        for i in blocked:
+            violations.append((prop, "the server process does not come back and is asleep: a blocked worker (same-thread deadlock?)", ccases[i], 0))
+        if spinning:
+            conc_stats["histories_skipped_runtime_never_idle"] = conc_stats.get("histories_skipped_runtime_never_idle", 0) + len(spinning)
+        keep = [i for i in range(len(ccases)) if i not in spinning and i not in blocked]
+        ccases, obs = [ccases[i] for i in keep], [obs[i] for i in keep]
         want = set(tags) | {prop, "PANIC"}
         conc_stats["interleaved_histories"] = conc_stats.get("interleaved_histories", 0) + len(ccases)
         conc_stats["interleaved_ops"] = conc_stats.get("interleaved_ops", 0) + sum(len(c["ops"]) for c in ccases)
